@@ -32,6 +32,7 @@ def main():
     if a.replay:
         kw["need"] = None
         kw["min_cases"] = 0
+        kw["write_evidence"] = False
     rc = common.conclude(a.pid, tier, seed, res, lost, t0, nshards=len(shards),
                          rule=mod.RULE, assumptions=mod.ASSUMPTIONS, **kw)
     sys.exit(rc)
